@@ -440,7 +440,10 @@ def consistency(schema, ci, m, path, problems, depth=0):
         nums = None
     for g in range(c.ngroups):
         mem = [f for f in c.fields if f.group == g]
-        name = bp.which_one_of(raw_clone(m), f"g{g}")[0]
+        try:
+            name = bp.which_one_of(raw_clone(m), f"g{g}")[0]
+        except Exception as e:
+            name = f"<raises {type(e).__name__}>"
         rd = [f.name for f in mem if readable(m, f.name)]
         if rd != ([name] if name else []):
             problems.append(("nested-readable", f"{path}: group g{g}: which_one_of says {name!r} but readable members are {rd}"))
@@ -550,7 +553,10 @@ def oracle(schema, ci, m, exp, ctx, rng=None):
                     ctx.count(f"json_back_error:{type(e).__name__}")
                     continue
                 for g, mem, want in groups:
-                    name = bp.which_one_of(back, f"g{g}")[0]
+                    try:
+                        name = bp.which_one_of(back, f"g{g}")[0]
+                    except Exception as e:
+                        name = f"<raises {type(e).__name__}>"
                     if name != want:
                         problems.append((tag, f"group g{g}: selected {want!r}; from_dict(to_dict({flags_str(flags)})) selects {name!r}"))
     # ---- nested values
@@ -559,7 +565,7 @@ def oracle(schema, ci, m, exp, ctx, rng=None):
 
 
 def flags_str(flags):
-    return ", ".join(f"{k}={'True' if v is True else getattr(v, 'name', v)}" for k, v in flags.items())
+    return ", ".join(f"{k}={'True' if v is True else getattr(v, '__name__', v)}" for k, v in flags.items())
 
 
 # --------------------------------------------------------------------------------------
@@ -571,8 +577,11 @@ def expected_snapshot(schema, ci, m, out, op):
     lit = msggen.obj_literal(schema, m)
     whichs = []
     for g in range(c.ngroups):
-        name = bp.which_one_of(raw_clone(m), f"g{g}")[0]
-        whichs.append(cz([f.name for f in c.fields].index(name)) if name else CN)
+        try:
+            name = bp.which_one_of(raw_clone(m), f"g{g}")[0]
+            whichs.append(cz([f.name for f in c.fields].index(name)) if name else CN)
+        except Exception:
+            whichs.append(ce("EOther"))
     reads = []
     for f in c.fields:
         cln = raw_clone(m)
@@ -640,6 +649,10 @@ def run_history(schema, ci, ops, ctx, count=True, rng=None):
             coq_ops.pop()
             if count:
                 ctx.count("unmodellable_state")
+            break
+        except Exception as e:
+            coq_ops.pop()
+            problems.append((step, "observe-crash", f"observing the object (raw state / which_one_of / reads / bytes) raised {type(e).__name__}: {e}"))
             break
         try:
             for cls_, text in oracle(schema, ci, m, exp, ctx, rng):
